@@ -234,6 +234,10 @@ func (checker *Checker) enforceViewAssignment(statement ast.Statement, target as
 		if _, isIndexExpression := target.(*ast.IndexExpression); isIndexExpression && len(traversedTypes) > 0 {
 			traversedTypes = traversedTypes[1:]
 		}
+		// The last two types in the access chain are the type of `self` itself
+		// (for the identifier, and as the accessed type of the member access on it),
+		// which is a reference in attachments
+		traversedTypes = traversedTypes[:max(len(traversedTypes)-2, 0)]
 		for _, t := range traversedTypes {
 			if _, isReference := t.(*ReferenceType); isReference {
 				checker.ObserveImpureOperation(statement)
